@@ -1,0 +1,11 @@
+//go:build verif
+
+package destination
+
+import "time"
+
+// VerifSettings exposes the unexported tuning settings of a destination to the
+// verification harness (build tag verif).
+func (dest *Destination) VerifSettings() (periodFlush, periodReConn time.Duration, connBufSize, ioBufSize int) {
+	return dest.periodFlush, dest.periodReConn, dest.connBufSize, dest.ioBufSize
+}
